@@ -7,7 +7,7 @@ for ln, tier in [(1, 'quick'), (2, 'quick'), (19, 'thorough'), (20, 'quick'), (2
                       unwind=ln + 3, backend='kissat', tier=tier, cap=400, hunwind=40,
                       desc='parseNumber on every %s digit string of length %d: exact integer on [-2^63,2^64), else floating kind of the right magnitude' % ('negative' if neg else 'non-negative', ln),
                       bound='all 10^%d digit strings (leading zeros are digits)' % ln))
-OBS.append(Ob(['C12', 'C10', 'C01', 'C13'], 'pnum_scan_n5', 'numcut', 'harness/pnum.c', 'h_pnum_scan', defs=['NB=5'], unwind=8, cap=400, hunwind=12,
+OBS.append(Ob(['C12', 'C10', 'C01', 'C13', 'C07'], 'pnum_scan_n5', 'numcut', 'harness/pnum.c', 'h_pnum_scan', defs=['NB=5'], unwind=8, cap=400, hunwind=12,
               desc='parseNumber on every string of 5 bytes: grammar, exact (mantissa, exponent), float-vs-double decision, overflow shortcut', bound='all 2^40 5-byte strings (NUL anywhere)'))
 OBS.append(Ob(['C12'], 'pnum_8digits', 'numcut', 'harness/pnum.c', 'h_pnum_8digits', unwind=12, cap=300, hunwind=12,
               desc='literals D.DDDDDDD (8 significant digits): exact (mantissa, exponent) and double-precision path', bound='all 9*10^7 such literals'))
